@@ -33,6 +33,11 @@ def tag(scn, v):
     if v.clause in ('C17.silent_success', 'C17.prompt') and o.get('auto_prompt_reset', True):
         # blind fall-back prompt commands (csh, zsh syntax) reached a shell that had accepted an earlier one?
         t = 'reset=True/%s' % ('fallback_commands_queued' if v.detail.get('prompt_setting_commands_received', 0) >= 2 else 'direct')
+        gap = v.detail.get('fallback_typed_after_s')
+        if gap is not None and gap < 9.9:
+            # the known finding is about a server silent for MORE than the fixed 10 s each attempt waits; a fall-back typed
+            # earlier than that is something else
+            t += '/typed_after_less_than_10s'
         if v.detail.get('set_unique_prompt_returned') is False:
             # login() went on although its own set_unique_prompt() reported failure: not the queued-fall-back finding
             t += '/set_unique_prompt_failed'
